@@ -40,11 +40,12 @@ def cmd_import(src, sid, prop, needs):
         # demos were written against the agent's own worktree path: point them at the scratch copy
         import re
         demo_local = re.sub(r'/var/tmp/mut[0-9]*-[a-z0-9]+', wt, demo)
-        with open(os.path.join(wt, '_demo.py'), 'w') as f:
+        os.makedirs(os.path.join(wt, '_out'), exist_ok=True)      # where the authors wrote and ran it
+        with open(os.path.join(wt, '_out', 'demo.py'), 'w') as f:
             f.write(demo_local)
-        rc0, out0 = sh([PY, '_demo.py'], cwd=wt, env=env, timeout=600)
+        rc0, out0 = sh([PY, '_out/demo.py'], cwd=wt, env=env, timeout=600)
         rca, outa = sh('git apply %s' % os.path.join(d, 'patch.diff'), cwd=wt)
-        rc1, out1 = sh([PY, '_demo.py'], cwd=wt, env=env, timeout=600)
+        rc1, out1 = sh([PY, '_out/demo.py'], cwd=wt, env=env, timeout=600)
         rcs, outs = sh([PY, '-m', 'pytest', '-q', '-p', 'no:cacheprovider', '--timeout=900',
                         '--continue-on-collection-errors'], cwd=wt, env=env, timeout=900)
         tail = outs.strip().splitlines()[-1] if outs.strip() else ''
